@@ -20,7 +20,9 @@ CFG = dict(
          "and nobody calls Stop; the reader's 5 s no-data time-out must end the run cleanly - Inactive within 7.5 s, devices released, restartable; the loop is held 300 ms at "
          "loop.processed after the last block so the order of the two 5 s timers does not depend on load). `cfgErr` (2 cases in quick: the Lancero source on a simulated card through the real "
          "ConfigureLanceroSource / Start / Stop: rejected configurations (unknown card, duplicate card), optionally a failing Start, then a valid configuration and a "
-         "Start that must succeed; replies compared with the remembered-configuration-error automaton). After every failed Start the real "
+         "Start that must succeed; replies compared with the remembered-configuration-error automaton). `udpBad` (1 case in quick: the real AbacoSource over a loopback UDP port with a sender "
+         "goroutine; ONE undecodable datagram arrives while valid packets keep coming: blocks must still be processed, Stop must return within 3 s, Inactive, Configure + restart). "
+         "After every failed Start the real "
          "object's completion barrier is observed (runDone.Wait() returns? run-done channel closed?) and judged: Inactive <-> counter 0. The logged "
          "trace must be a run of the Lean transition system; return values, GetState(), goroutine census, writing flag and UDP-port re-bindability "
          "must equal the model's and satisfy the property oracle; a watchdog turns a hang into the output `hang 1`. Non-trivial = at least two "
@@ -59,7 +61,7 @@ MANIFEST = dict(
          "of the MODEL; liveness is proved for the model (well-founded measure under a fairness assumption on select) and only OBSERVED on the real code (watchdog). "
          "Go scheduler, sync and channel semantics are assumptions of the model; critical sections of sourceStateLock are atomic steps. Defects found and repaired: "
          "writing left active after self-termination (8f9149d), failed Abaco Start keeps UDP sockets (68e3d92), Abaco UDP reader goroutine never exits (6d574d1); "
-         "a delayed Stop waiting on the next run (d9d435f); known finding: Stop on a Starting source panics.",
+         "a delayed Stop waiting on the next run (d9d435f), one undecodable UDP datagram wedging the Abaco source (588eaa1); known finding: Stop on a Starting source panics.",
     technique="Lean 4 invariants / measure over a labelled transition system; tied to the Go code by trace conformance and outcome comparison under forced interleavings",
 )
 
